@@ -424,33 +424,14 @@ theorem startup_file_current (env : Env P N V) (htt : env.tgt ≠ env.tmp) (ps :
     · rw [hnr hr] at hraised; cases hraised
     · left; simp
 
-/-- The full statement of "a reload brings back only values of this run": start-up from any file, any history, then
-`loadParameters()`: every persistent parameter ends with a value it has had since the end of start-up. -/
-def reload_from_this_run_statement : Prop :=
-  ∀ (P N V : Type) [DecidableEq P] (env : Env P N V) (ps : List (Param V)) (wd0 : List (String × V)) (fs0 : FS P)
-    (hist : List (Act V × Option Fault)) (f1 : Option Fault),
-    env.tgt ≠ env.tmp → (ps.map (·.name)).Nodup → Codec env ps →
-    (∀ b kv, env.parse b = some (.obj kv) → (kv.map Prod.fst).Nodup) →
-    (∀ n v v', env.wval n v = some v' → v' = v) →
-    (∀ n v, env.imp n (env.exp n v) = some v) →
-    (∀ d d', env.same d d' = true → ∀ n, (d'.lookup n).bind (env.imp n) = (d.lookup n).bind (env.imp n)) →
-    let o := startUp env ps wd0 (fs0 env.tgt) none
-    let w0 : World P N V := ⟨o.ms, applyEvs fs0 o.evs⟩
-    let w := World.run env w0 hist
-    let out := (loadParameters env w.ms (w.fs env.tgt) f1).ms.params
-    ReloadFromThisRun (w.ms.params.map (fun p => ⟨p.name, p.persistent, p.hasWrite, p.value,
-      (List.range (hist.length + 1)).map (fun i => (valueOf (World.run env w0 (hist.take i)).ms.params p.name).getD p.value),
-      (valueOf out p.name).getD p.value⟩))
-
-/-- Proved part: the reload that follows start-up directly (the first poll finds the hardware power-cycled).  Whatever
-the file of the earlier run held and whatever the configuration gives now, a start-up that returned normally followed
-by `loadParameters()` (with or without an I/O fault in the save it triggers) leaves every persistent parameter with the
+/-- The reload that follows start-up directly (the first poll finds the hardware power-cycled).  Whatever the file of
+the earlier run held and whatever the configuration gives now, a start-up that returned normally followed by
+`loadParameters()` (with or without an I/O fault in the save it triggers) leaves every persistent parameter with the
 value start-up decided; in particular a value given in the configuration is not overridden by the stored one.
 Hypotheses: distinct names; `Codec`; `json.load` gives distinct keys; a write method returns what it was given; the
 start values survive export + import; import respects Python `==` of decoded files (used only when start-up found
-nothing to write).  Missing for the full statement: an arbitrary history between start-up and the reload (the invariant
-"every entry of `persistentData` imports to a value the parameter has held" over `World.run`). -/
-theorem reload_from_this_run_partial (env : Env P N V) (htt : env.tgt ≠ env.tmp) (ps : List (Param V))
+nothing to write). -/
+theorem reload_after_startup_keeps_values (env : Env P N V) (htt : env.tgt ≠ env.tmp) (ps : List (Param V))
     (wd0 : List (String × V)) (fs0 : FS P) (f0 f1 : Option Fault)
     (hnames : (ps.map (·.name)).Nodup) (hc : Codec env ps)
     (hkeys : ∀ b kv, env.parse b = some (.obj kv) → (kv.map Prod.fst).Nodup)
@@ -493,6 +474,79 @@ theorem reload_from_this_run_partial (env : Env P N V) (htt : env.tgt ≠ env.tm
   simp only at hpers ⊢
   rw [hmain p hp hpers]
   simp
+
+/-- "Values given in the configuration take precedence over stored ones", for the whole run of a module: start-up
+(from any file of an earlier run, any configuration) that returned normally, then ANY history of `set` /
+`saveParameters` / `writeInitParams` / `loadParameters` / `factory_reset` actions, each with or without an I/O fault in
+the saves it triggers, then `loadParameters()`: every persistent parameter ends with a value it has had in this run —
+at the end of start-up (configured > stored > default) or after one of the actions.  A value that only the earlier
+run had stored never comes back.  Hypotheses as for `reload_after_startup_keeps_values`, with the codec law for all
+values. -/
+theorem reload_from_this_run (env : Env P N V) (htt : env.tgt ≠ env.tmp) (ps : List (Param V))
+    (wd0 : List (String × V)) (fs0 : FS P) (f0 f1 : Option Fault) (hist : List (Act V × Option Fault))
+    (hnames : (ps.map (·.name)).Nodup) (hc : Codec env ps)
+    (hkeys : ∀ b kv, env.parse b = some (.obj kv) → (kv.map Prod.fst).Nodup)
+    (hidem : ∀ n v v', env.wval n v = some v' → v' = v)
+    (hlaw : ∀ n v, env.imp n (env.exp n v) = some v)
+    (hsame : ∀ d d', env.same d d' = true → ∀ n, (d'.lookup n).bind (env.imp n) = (d.lookup n).bind (env.imp n)) :
+    let o := startUp env ps wd0 (fs0 env.tgt) f0
+    let w0 : World P N V := ⟨o.ms, applyEvs fs0 o.evs⟩
+    let w := World.run env w0 hist
+    let out := (loadParameters env w.ms (w.fs env.tgt) f1).ms.params
+    o.raised = false →
+    ReloadFromThisRun (w.ms.params.map (fun p => ⟨p.name, p.persistent, p.hasWrite, p.value,
+      (List.range (hist.length + 1)).map (fun i => (valueOf (World.run env w0 (hist.take i)).ms.params p.name).getD p.value),
+      (valueOf out p.name).getD p.value⟩)) := by
+  intro o w0 w out hraised
+  have hnames0 : (o.ms.params.map (·.name)).Nodup := by rw [startUp_names]; exact hnames
+  have hgood0 : Good env ps w0.fs w0.ms := startUp_good env ps htt hc wd0 fs0 f0
+  -- at the end of start-up the file holds the start values
+  have hwithin0 : Within env (fun n v => valueOf o.ms.params n = some v) w0.ms := by
+    have hval : ∀ n p, findParam w0.ms.params n = some p → valueOf o.ms.params n = some p.value := by
+      intro n p hf
+      unfold valueOf
+      rw [show findParam o.ms.params n = some p from hf]; rfl
+    refine ⟨fun n p hf _ => hval n p hf, fun n p hf hpers => ?_⟩
+    obtain ⟨hmem, hname⟩ := mem_of_findParam hf
+    refine ⟨p.value, ?_, hval n p hf⟩
+    rw [← hgood0.disk, ← hname]
+    rcases startup_file_current env htt ps wd0 fs0 f0 hc hraised with h | h
+    · rw [h, lookup_exportAll env o.ms.params hnames0 p hmem hpers]; exact hlaw _ _
+    · rw [hsame _ _ h, lookup_exportAll env o.ms.params hnames0 p hmem hpers]; exact hlaw _ _
+  have hwithin := world_run_within env ps htt hc hlaw hist w0 _ hgood0 hnames0 hwithin0
+  have hgood : Good env ps w.fs w.ms := world_run_good env ps htt hc hist w0 hgood0
+  have hnamesw : (w.ms.params.map (·.name)).Nodup := by
+    rw [world_run_names]; exact hnames0
+  -- every value of this run is in the list of the observation
+  have hheld : ∀ (p : Param V) (x : V),
+      (valueOf o.ms.params p.name = some x ∨ Visited env w0 hist p.name x) →
+      x ∈ (List.range (hist.length + 1)).map
+        (fun i => (valueOf (World.run env w0 (hist.take i)).ms.params p.name).getD p.value) := by
+    intro p x hx
+    rcases hx with hx | ⟨i, hi, hx⟩
+    · exact List.mem_map.2 ⟨0, by simp, by simp [World.run, w0, hx]⟩
+    · exact List.mem_map.2 ⟨i, by simp; omega, by simp [hx]⟩
+  intro ob hob hpers
+  obtain ⟨p, hp, rfl⟩ := List.mem_map.1 hob
+  simp only at hpers ⊢
+  have hfind := findParam_of_mem w.ms.params hnamesw p hp
+  have hraw := loadRaw_keys_nodup env.parse (w.fs env.tgt) hkeys
+  obtain ⟨v, hv, hHv⟩ := hwithin.stored p.name p hfind hpers
+  have hl : (loadEntries w.ms.params env.imp (loadRaw env.parse (w.fs env.tgt))).lookup p.name = some v := by
+    rw [lookup_loaded w.ms.params env.imp _ hraw p hfind hpers, hgood.disk]; exact hv
+  apply hheld p
+  have hX : (valueOf out p.name).getD p.value =
+      ((if p.hasWrite then env.wval p.name v else some v)).getD p.value := by
+    simp only [out, valueOf]
+    rw [loadParameters_find env w.ms (w.fs env.tgt) f1 p.name p hfind hraw, hl]
+    simp
+  rw [hX]
+  have hcur := hwithin.cur p.name p hfind hpers
+  cases hw : p.hasWrite
+  · simp only [Bool.false_eq_true, if_false, Option.getD_some]; exact hHv
+  · cases hwv : env.wval p.name v with
+    | none => simp only [if_true, Option.getD_none]; exact hcur
+    | some v' => simp only [if_true, Option.getD_some, hidem _ _ _ hwv]; exact hHv
 
 end loading
 
@@ -577,7 +631,7 @@ One persistent parameter "a" (with a write method that refuses values above 100)
 are written in unary, so every snapshot reads back (`Codec`): `exEnv`, `exParams`, `exCodec`, `exLaws` in
 `Lemmas/PersistReload`. -/
 
-/-- `reload_from_this_run_partial`, `startup_file_current`, `believed_on_disk_world` on the scenario of the statement's
+/-- `reload_after_startup_keeps_values`, `reload_from_this_run`, `startup_file_current`, `believed_on_disk_world` on the scenario of the statement's
 precedence clause: the earlier run stored a = 3, the configuration now gives a = 5.  Start-up replaces the file (the
 save performs 5 operations), and the reload that follows leaves a = 5; all hypotheses of the theorems hold. -/
 example :
@@ -601,7 +655,7 @@ example :
     (loadParameters exEnv ms (some (List.replicate 9 1)) none).writes = [("a", 9)] := by
   refine ⟨by decide +kernel, by decide +kernel, by decide +kernel⟩
 
-/-- all hypotheses of `reload_from_this_run_partial` (and with them those of `believed_on_disk_world` and
+/-- all hypotheses of `reload_after_startup_keeps_values` (and with them those of `believed_on_disk_world` and
 `startup_file_current`) hold in that scenario, so its conclusion is obtained from the theorem itself -/
 example :
     let fs0 : FS Nat := fun p => if p = 0 then some [1, 1, 1] else none
@@ -609,8 +663,25 @@ example :
     ∀ p ∈ o.ms.params, p.persistent = true →
       valueOf (loadParameters exEnv o.ms (applyEvs fs0 o.evs exEnv.tgt) (some ⟨1, [1]⟩)).ms.params p.name = some p.value := by
   intro fs0 o
-  exact (reload_from_this_run_partial exEnv exLaws.1 exParams [("a", 5)] fs0 none (some ⟨1, [1]⟩) exLaws.2.1 exCodec
+  exact (reload_after_startup_keeps_values exEnv exLaws.1 exParams [("a", 5)] fs0 none (some ⟨1, [1]⟩) exLaws.2.1 exCodec
     exLaws.2.2.1 exLaws.2.2.2.1 exLaws.2.2.2.2.1 (by decide +kernel) (fun p _ _ => exLaws.2.2.2.2.2 _ _)).1
+
+/-- `reload_from_this_run` applied in that scenario to an arbitrary history; and a concrete history in which the reload
+does change the parameter — back to a value of this run (9 was assigned but never saved, the file holds 5), not to the
+3 of the earlier run -/
+example (hist : List (Act Nat × Option Fault)) (f1 : Option Fault) :
+    let fs0 : FS Nat := fun p => if p = 0 then some [1, 1, 1] else none
+    let o := startUp exEnv exParams [("a", 5)] (fs0 exEnv.tgt) none
+    let w0 : World Nat Nat Nat := ⟨o.ms, applyEvs fs0 o.evs⟩
+    ReloadFromThisRun ((World.run exEnv w0 hist).ms.params.map (fun p => ⟨p.name, p.persistent, p.hasWrite, p.value,
+      (List.range (hist.length + 1)).map (fun i => (valueOf (World.run exEnv w0 (hist.take i)).ms.params p.name).getD p.value),
+      (valueOf (loadParameters exEnv (World.run exEnv w0 hist).ms ((World.run exEnv w0 hist).fs exEnv.tgt) f1).ms.params p.name).getD p.value⟩)) ∧
+    (let w := World.run exEnv w0 [(.writeInit, none), (.set "a" 9, none)]
+     valueOf w.ms.params "a" = some 9 ∧
+     valueOf (loadParameters exEnv w.ms (w.fs exEnv.tgt) none).ms.params "a" = some 5) := by
+  intro fs0 o w0
+  exact ⟨reload_from_this_run exEnv exLaws.1 exParams [("a", 5)] fs0 none f1 hist exLaws.2.1 exCodec exLaws.2.2.1
+    exLaws.2.2.2.1 exLaws.2.2.2.2.2 exLaws.2.2.2.2.1 (by decide +kernel), by decide +kernel, by decide +kernel⟩
 
 /-- … and `reload_restores` / `believed_on_disk_world` applied to them -/
 example (held : String → List Nat) (hist : List (Act Nat × Option Fault)) (fs0 : FS Nat) :
